@@ -1332,6 +1332,20 @@ impl MachineState {
 }
 
 impl Machine {
+    /// A retried call of a dynamic predicate observes the generation it captured on first
+    /// entry, which lives in the last cell of its choice point. It must be back in `cc` before
+    /// any clause is tested for being alive: `cc` may hold the generation of a later call.
+    #[inline(always)]
+    fn restore_cc_from_choice_point(&mut self) {
+        let b = self.machine_st.b;
+        let n = self.machine_st.stack.index_or_frame(b).prelude.num_cells;
+
+        self.machine_st.cc = unsafe {
+            self.machine_st.stack[stack_loc!(OrFrame, b, n - 1)].to_fixnum_or_cut_point_unchecked()
+        }
+        .get_num() as usize;
+    }
+
     pub(super) fn find_living_dynamic_else(&self, mut p: usize) -> Option<(usize, usize)> {
         loop {
             match self.code[p] {
@@ -1783,6 +1797,8 @@ impl Machine {
                     &Instruction::DynamicElse(..) => {
                         if let FirstOrNext::First = self.machine_st.dynamic_mode {
                             self.machine_st.cc = self.machine_st.global_clock;
+                        } else {
+                            self.restore_cc_from_choice_point();
                         }
 
                         let p = self.machine_st.p;
@@ -1869,6 +1885,10 @@ impl Machine {
                         }
                     }
                     &Instruction::DynamicInternalElse(..) => {
+                        if let FirstOrNext::Next = self.machine_st.dynamic_mode {
+                            self.restore_cc_from_choice_point();
+                        }
+
                         let p = self.machine_st.p;
 
                         match self.find_living_dynamic_else(p) {
@@ -3693,6 +3713,10 @@ impl Machine {
                                 }
                             }
                             IndexingLine::DynamicIndexedChoice(_) => {
+                                if let FirstOrNext::Next = self.machine_st.dynamic_mode {
+                                    self.restore_cc_from_choice_point();
+                                }
+
                                 let p = self.machine_st.p;
 
                                 match self
